@@ -20,6 +20,11 @@ Families
             log-likelihood differences, resampling + mean + covariance against the model;
             softmax against mpmath; Monte-Carlo band (>= 6 sigma) against the closed-form posterior
             mean of the documented particle model
+  pfcond    every PF call (2nd call on its object), given its particles (rebuilt from the recorded normal
+            draws): returned mean / covariance within the Bernstein deviation (2e-10) of the importance-
+            weighted mean / Q + weighted covariance; regime family: measurement noise 1e-2 .. 1e3 times the
+            spread of the predicted observation (ESS from a few particles to ~N), n = 1..6, N = 1e3..2e5;
+            a record the call did not produce = mismatch, searched with more particles (no crash)
 """
 import math
 from ..common import *
